@@ -344,166 +344,204 @@ sys.exit(0)
 # ------------------------------------------------------------------------------------
 # (2) life-cycle automaton per class, transitions computed from the real constructors
 
-LIFECYCLE_SRC = r'''
+LIFECYCLE_LIB = r"""
 import json, sys
-import measured
-from measured import Dimension, Prefix, Unit, Logarithm, LogarithmicUnit, Length, Time, One
+import measured, measured.si
+from measured import Dimension, Prefix, Unit, Quantity, Logarithm, LogarithmicUnit, Length, Time, One
+def L(i):
+    return "".join("abcdefghij"[int(c)] for c in str(i))
+class World:
+    # one key of class `cls`, a supply of fresh names; ops act on that key
+    def __init__(self, cls, k):
+        self.cls, self.k, self.j = cls, k, 0
+        self.bases = [Length.unit(f"cnba{L(k)}", f"cba{L(k)}"), Time.unit(f"cnbb{L(k)}", f"cbb{L(k)}")] \
+            if cls in ("Unit", "LogarithmicUnit") else []
+        self.lg = Logarithm(17.0 + k) if cls == "LogarithmicUnit" else None
+        self.sbase = {}
+    def names(self):
+        # the name and symbol the next declaring operation uses; a Unit's symbol is a prefix
+        # symbol followed by another unit's symbol, so that it resolves (to something else)
+        # before it is declared
+        t = L(self.k) + "x" + L(self.j)
+        if self.cls == "Unit":
+            if self.j not in self.sbase:
+                self.sbase[self.j] = Length.unit(f"cnbs{t}", f"cbs{t}")
+            return f"cnn{t}", "M" + f"cbs{t}"
+        return f"cnn{t}", f"cns{t}"
+    def make(self, named):
+        nm, sy = self.names() if named else (None, None)
+        k = self.k
+        if self.cls == "Prefix":
+            return Prefix(7, 100 + k, nm, sy)
+        if self.cls == "Dimension":
+            return Dimension(tuple([0, 50 + k] + [0] * (len(Length.exponents) - 2)), nm, sy)
+        if self.cls == "Logarithm":
+            return Logarithm(3.0 + k, Prefix(0, 0), nm, sy)
+        if self.cls == "Unit":
+            return Unit(Prefix(0, 0), {self.bases[0]: 3 + k, self.bases[1]: -2}, Length ** (3 + k) / Time ** 2, nm, sy)
+        return LogarithmicUnit(self.lg, (2 + k) * self.bases[0], nm, sy)
+    def lookups(self, nm, sy):
+        # every public way of asking for a name / symbol
+        out = {}
+        def ask(label, f):
+            try:
+                out[label] = f()
+            except Exception as e:
+                out[label] = type(e).__name__
+        if self.cls == "Unit":
+            ask("Unit.named", lambda: Unit.named(nm))
+            ask("Unit.resolve_symbol", lambda: Unit.resolve_symbol(sy))
+            ask("Unit.resolve_symbol(name)", lambda: Unit.resolve_symbol(nm))
+            ask("Unit.parse", lambda: Unit.parse(sy))
+            ask("Quantity(1, symbol)", lambda: Quantity(1, sy).unit)
+            ask("Quantity.parse", lambda: Quantity.parse("1 " + sy).unit)
+        elif self.cls == "Prefix":
+            ask("Prefix.resolve_symbol", lambda: Prefix.resolve_symbol(sy))
+        elif self.cls == "Dimension":
+            ask("Dimension.named", lambda: Dimension.named(nm))
+        return out
+    def observe(self, obj, nm, sy):
+        reports = (getattr(obj, "name", None) == nm) or nm in getattr(obj, "names", ())
+        post = {"reports": bool(reports)}
+        by_name = getattr(type(obj), "_by_name", None)
+        if by_name is not None:
+            post["by_name"] = by_name.get(nm) is obj
+        by_symbol = getattr(type(obj), "_by_symbol", None)
+        if by_symbol is not None:
+            post["by_symbol"] = by_symbol.get(sy) is obj
+        for label, got in self.lookups(nm, sy).items():
+            post[label] = got is obj
+        return post
+    def run(self, seq):
+        post = {"declared": False}
+        o = None
+        for op in seq:
+            post = {"declared": False}
+            if op == "lookup":
+                self.lookups(*self.names())
+                post["named_now"] = bool(getattr(o, "name", None)) if o is not None else False
+                continue
+            if op == "construct-anonymous":
+                o = self.make(False)
+            elif op == "construct-named":
+                nm, sy = self.names()
+                o = self.make(True)
+                self.j += 1
+                post = {"declared": True, **self.observe(o, nm, sy)}
+            else:
+                o = self.make(False)
+                nm, sy = self.names()
+                if self.cls == "Unit":
+                    Unit.derive(o, nm, sy)
+                elif self.cls == "Dimension":
+                    Dimension.derive(o, nm, sy)
+                elif self.cls in ("Logarithm", "LogarithmicUnit"):
+                    o.alias(nm, sy)
+                else:
+                    return {"declared": False, "unsupported": True}
+                self.j += 1
+                post = {"declared": True, **self.observe(o, nm, sy)}
+            post["named_now"] = bool(getattr(o, "name", None))
+        return post
+"""
+
+LIFECYCLE_SRC = LIFECYCLE_LIB + r"""
 cls = sys.argv[1]
-def fresh():
-    i = fresh.i = getattr(fresh, "i", 0) + 1
-    return i
-def make(kind, k, named, tag):
-    """construct the class's object for key k; named -> with name/symbol"""
-    nm, sy = (f"c19n{tag}", f"c19s{tag}") if named else (None, None)
-    if cls == "Prefix":
-        return Prefix(7, 100 + k, nm, sy)
-    if cls == "Dimension":
-        return Dimension(tuple([0, 50 + k] + [0] * (len(Length.exponents) - 2)), nm, sy)
-    if cls == "Logarithm":
-        return Logarithm(3.0 + k, Prefix(0, 0), nm, sy)
-    if cls == "Unit":
-        return Unit(Prefix(0, 0), {BASES[0]: 3 + k, BASES[1]: -2}, Length ** (1 + k) , nm, sy)
-    if cls == "LogarithmicUnit":
-        return LogarithmicUnit(LG, (2 + k) * BASES[0], nm, sy)
-BASES = [Length.unit("c19-a", "c19-a"), Time.unit("c19-b", "c19-b")] if cls in ("Unit", "LogarithmicUnit") else []
-LG = Logarithm(17.0) if cls == "LogarithmicUnit" else None
-def observe(obj, tag):
-    nm, sy = f"c19n{tag}", f"c19s{tag}"
-    reports = (getattr(obj, "name", None) == nm) or nm in getattr(obj, "names", ())
-    by_name = getattr(type(obj), "_by_name", None)
-    looked = (by_name.get(nm) is obj) if by_name is not None else None
-    by_symbol = getattr(type(obj), "_by_symbol", None)
-    looked_s = (by_symbol.get(sy) is obj) if by_symbol is not None else None
-    return {"reports": bool(reports), "by_name": looked, "by_symbol": looked_s}
+PREFIX = {"absent": [], "anonymous": ["construct-anonymous"], "named": ["construct-named"]}
 table = {}
 k = 0
 for state in ("absent", "anonymous", "named"):
-    for op in ("construct-anonymous", "construct-named", "derive-or-alias"):
-        k += 1
-        try:
-            if state == "anonymous":
-                make(None, k, False, 0)
-            elif state == "named":
-                make(None, k, True, f"{k}a")
-            tag = f"{k}b"
-            if op == "construct-anonymous":
-                o = make(None, k, False, 0)
-                post = {"declared": False}
-            elif op == "construct-named":
-                o = make(None, k, True, tag)
-                post = {"declared": True, **observe(o, tag)}
-            else:
-                o = make(None, k, False, 0) if state == "absent" else make(None, k, False, 0)
-                nm, sy = f"c19n{tag}", f"c19s{tag}"
-                if cls == "Unit":
-                    Unit.derive(o, nm, sy)
-                elif cls == "Dimension":
-                    Dimension.derive(o, nm, sy)
-                elif cls in ("Logarithm", "LogarithmicUnit"):
-                    o.alias(nm, sy)
-                else:
-                    post = {"declared": False, "unsupported": True}
-                    table[f"{state}|{op}"] = post
-                    continue
-                post = {"declared": True, **observe(o, tag)}
-            named_now = bool(getattr(o, "name", None))
-            post["next"] = "named" if named_now else "anonymous"
-        except Exception as e:
-            post = {"declared": False, "raised": type(e).__name__, "next": state}
-        table[f"{state}|{op}"] = post
+    for looked in (0, 1):
+        for op in ("construct-anonymous", "construct-named", "derive-or-alias"):
+            k += 1
+            seq = PREFIX[state] + (["lookup"] if looked else []) + [op]
+            try:
+                post = World(cls, k).run(seq)
+                post["next"] = "named" if post.pop("named_now", False) else "anonymous"
+            except Exception as e:
+                post = {"declared": False, "raised": type(e).__name__, "next": state}
+            table[f"{state}|{looked}|{op}"] = post
 print(json.dumps(table))
-'''
+"""
+
+NOT_OBSERVATIONS = ("declared", "next", "raised", "unsupported", "named_now")
 
 
 def lifecycle(rep: report.Report) -> None:
     states = ["absent", "anonymous", "named"]
-    ops = ["construct-anonymous", "construct-named", "derive-or-alias"]
+    ops = ["construct-anonymous", "construct-named", "derive-or-alias", "lookup"]
     for cls in ("Prefix", "Dimension", "Unit", "Logarithm", "LogarithmicUnit"):
         p = subprocess.run([report.REPO_PY, "-c", LIFECYCLE_SRC, cls], capture_output=True, text=True,
                            timeout=120, cwd="/")
         if p.returncode != 0:
             raise symnum.HarnessError(f"life-cycle extraction for {cls} failed: {p.stderr[-500:]}")
         table = json.loads(p.stdout.strip().splitlines()[-1])
-        # BMC over the extracted automaton: sequence of <= 4 operations from 'absent' whose last
-        # operation declares a name that is then not bound / not reported
+        # BMC over the extracted automaton: sequence of <= 5 operations from 'absent' whose last
+        # operation declares a name that is then not bound / not reported / not found by a
+        # public lookup.  State = (life-cycle state of the object, whether the name about to be
+        # declared has been looked up already)
         S = z3.Solver()
         S.set("timeout", 10000)
-        L = 4
+        L = 5
         st = [z3.Int(f"s{i}") for i in range(L + 1)]
+        lk = [z3.Int(f"l{i}") for i in range(L + 1)]
         op = [z3.Int(f"o{i}") for i in range(L)]
         ln = z3.Int("len")
-        S.add(st[0] == 0, ln >= 1, ln <= L)
+        S.add(st[0] == 0, lk[0] == 0, ln >= 1, ln <= L)
         bad_terms = []
         declaring = {"Prefix": ["construct-named"], "Logarithm": ["construct-named", "derive-or-alias"],
                      "Unit": ["derive-or-alias"], "Dimension": ["derive-or-alias"],
                      "LogarithmicUnit": ["derive-or-alias"]}[cls]
-        allowed = set(declaring) | {"construct-anonymous"}
+        allowed = set(declaring) | {"construct-anonymous", "lookup"}
         for i in range(L):
             S.add(op[i] >= 0, op[i] < len(ops))
+            S.add(z3.Implies(op[i] == 3, z3.And(st[i + 1] == st[i], lk[i + 1] == 1)))
+            S.add(z3.Implies(op[i] != 3, lk[i + 1] == 0))
             for si, sname in enumerate(states):
-                for oi, oname in enumerate(ops):
-                    post = table[f"{sname}|{oname}"]
-                    if post.get("unsupported") or oname not in allowed:
-                        S.add(z3.Implies(i < ln, z3.Not(z3.And(st[i] == si, op[i] == oi))))
-                    nxt = states.index(post.get("next", sname))
-                    S.add(z3.Implies(z3.And(st[i] == si, op[i] == oi), st[i + 1] == nxt))
-                    unbound = post.get("declared") and not post.get("unsupported") and (
-                        post.get("reports") is False or post.get("by_name") is False or
-                        post.get("by_symbol") is False)
-                    # first naming only: re-declaring another name for an already named
-                    # object through the constructor is outside the property
-                    if unbound and oname in declaring and sname != "named":
-                        bad_terms.append(z3.And(ln == i + 1, st[i] == si, op[i] == oi))
+                for looked in (0, 1):
+                    for oi, oname in enumerate(ops[:3]):
+                        post = table[f"{sname}|{looked}|{oname}"]
+                        here = z3.And(st[i] == si, lk[i] == looked, op[i] == oi)
+                        if post.get("unsupported") or oname not in allowed:
+                            S.add(z3.Implies(i < ln, z3.Not(here)))
+                        nxt = states.index(post.get("next", sname))
+                        S.add(z3.Implies(here, st[i + 1] == nxt))
+                        unbound = post.get("declared") and not post.get("unsupported") and any(
+                            v is False for kk, v in post.items() if kk not in NOT_OBSERVATIONS)
+                        # first naming only: re-declaring another name for an already named
+                        # object through the constructor is outside the property
+                        if unbound and oname in declaring and sname != "named":
+                            bad_terms.append(z3.And(ln == i + 1, here))
         rep.queries += 1
         S.add(z3.Or(*bad_terms) if bad_terms else z3.BoolVal(False))
         r = str(S.check())
         rep.ob("unsat" if r == "unsat" else ("unknown" if r == "unknown" else "sat"),
-               f"lifecycle:{cls}:no order of <= {L} operations leaves a declared name unbound",
-               ("lifecycle", cls))
+               f"lifecycle:{cls}:no order of <= {L} operations (constructions, declarations, lookups) leaves a "
+               f"declared name unbound", ("lifecycle", cls))
         rep.coverage.setdefault("lifecycle_tables", {})[cls] = table
         if r == "sat":
+            for shortest in range(1, L + 1):        # report a shortest history
+                S.push()
+                S.add(ln == shortest)
+                if str(S.check()) == "sat":
+                    break
+                S.pop()
             m = S.model()
             n = m.eval(ln).as_long()
             seq = [ops[m.eval(op[i], model_completion=True).as_long()] for i in range(n)]
             rep.violation(f"C19:lifecycle:{cls}:{'>'.join(seq)}",
-                          f"{cls}: after {seq} the declared name/symbol is not bound to / reported by "
-                          f"the object", lifecycle_replay(cls, seq))
+                          f"{cls}: after {seq} the declared name/symbol is not bound to / reported by / "
+                          f"found for the object", lifecycle_replay(cls, seq))
 
 
 def lifecycle_replay(cls: str, seq: List[str]) -> str:
-    body = {
-        "Prefix": ("measured.Prefix(7, 1234)", "measured.Prefix(7, 1234, 'c19-name', 'c19-sym')", None,
-                   "measured.Prefix._by_name.get('c19-name') is o and measured.Prefix._by_symbol.get('c19-sym') is o and o.name == 'c19-name'"),
-        "Dimension": ("measured.Dimension(D)", "measured.Dimension(D, 'c19-name', 'c19-sym')",
-                      "measured.Dimension.derive(o, 'c19-name', 'c19-sym')",
-                      "measured.Dimension._by_name.get('c19-name') is o and o.name == 'c19-name'"),
-        "Logarithm": ("measured.Logarithm(3.5)", "measured.Logarithm(3.5, measured.Prefix(0, 0), 'c19-name', 'c19-sym')",
-                      "o.alias('c19-name', 'c19-sym')", "o.name == 'c19-name' and o.symbol == 'c19-sym'"),
-        "Unit": ("measured.si.Meter**7 / measured.si.Second**5",
-                 "measured.Unit(measured.IdentityPrefix, {measured.si.Meter: 7, measured.si.Second: -5}, measured.Length**7 / measured.Time**5, 'c19-name', 'c19-sym')",
-                 "measured.Unit.derive(o, 'c19-name', 'c19-sym')",
-                 "measured.Unit._by_name.get('c19-name') is o and measured.Unit._by_symbol.get('c19-sym') is o and 'c19-name' in o.names"),
-        "LogarithmicUnit": ("measured.Bel[3 * measured.si.Watt]",
-                            "measured.LogarithmicUnit(measured.Bel, 3 * measured.si.Watt, 'c19-name', 'c19-sym')",
-                            "o.alias('c19-name', 'c19-sym')", "o.name == 'c19-name'"),
-    }[cls]
-    lines = ["D = tuple([0, 57] + [0] * (len(measured.Length.exponents) - 2))"]
-    for i, opn in enumerate(seq):
-        last = i == len(seq) - 1
-        if opn == "construct-anonymous":
-            lines.append(f"o = {body[0]}")
-        elif opn == "construct-named":
-            nm = body[1] if last else body[1].replace("c19-name", f"c19-early{i}").replace("c19-sym", f"c19-es{i}")
-            lines.append(f"o = {nm}")
-        else:
-            lines.append(f"o = {body[0]}")
-            nm = body[2] if last else body[2].replace("c19-name", f"c19-early{i}").replace("c19-sym", f"c19-es{i}")
-            lines.append(nm)
-    return families.REPLAY_IMPORTS + "\n".join(lines) + f"""
-ok = {body[3]}
-print({seq!r}, '-> declared name bound and reported:', ok, repr(o))
-if not ok:
-    print('REPRODUCED: a declared name/symbol is not bound to the object'); sys.exit(1)
+    return "import json\n" + f"LIB = {LIFECYCLE_LIB!r}\n" + f"""
+exec(LIB)
+post = World({cls!r}, 77).run({seq!r})
+print({seq!r}, '->', post)
+bad = [k for k, v in post.items() if v is False and k not in {NOT_OBSERVATIONS!r}]
+if post.get('declared') and bad:
+    print('REPRODUCED: a declared name/symbol is not bound to, reported by or found for the object:', bad); sys.exit(1)
 sys.exit(0)
 """
 
